@@ -189,11 +189,11 @@ func c33RawBlockRequest(r *vhRng) []byte {
 // malformed parts (the flag with a present justification, empty body entries, junk headers).
 func c33RawBlockResponse(r *vhRng) []byte {
 	m := &pb.BlockResponse{}
-	for i, n := 0, r.Intn(3); i < n; i++ {
+	for i, n := 0, 1+r.Intn(2); i < n; i++ {
 		bd := &pb.BlockData{Hash: c33RawBytes(r, 32)}
-		switch r.Intn(4) {
-		case 0:
-		case 1:
+		switch r.Intn(10) {
+		case 0, 1, 2, 3, 4:
+		case 5:
 			bd.Header = c33SmallBytes(r, r.Intn(120))
 		default:
 			bd.Header = c33Must(scale.Marshal(*c33Header(r)))
@@ -202,7 +202,7 @@ func c33RawBlockResponse(r *vhRng) []byte {
 			}
 		}
 		for j, k := 0, r.Intn(4); j < k; j++ {
-			switch r.Intn(4) {
+			switch r.Intn(8) {
 			case 0:
 				bd.Body = append(bd.Body, []byte{})
 			case 1:
